@@ -5,6 +5,7 @@
  */
 #include "cifio.h"
 #include "loop.c"
+#include "parser.c"
 
 /* build a value of the requested shape (un-armed); returns NULL on malformed input */
 static cif_value_tp *mk(char **argv, int argc, int *pos) {
@@ -53,6 +54,13 @@ static cif_value_tp *mk(char **argv, int argc, int *pos) {
     return NULL;
 }
 
+/* a scanner over a complete in-memory text, initialised as cif_parse() / cif_parse_internal() do (see x_lex.c) */
+static ssize_t ld_read_none(void *src, UChar *dest, ssize_t count, int *error_code) { (void) src; (void) dest; (void) count; (void) error_code; return 0; }
+static int ld_refuse(int code, size_t line, size_t column, const UChar *text, size_t length, void *data) {
+    (void) line; (void) column; (void) text; (void) length; (void) data; return code;
+}
+static cif_handler_tp ld_no_handler;
+
 static int cmp_long(const void *a, const void *b) { long x = *(const long *) a, y = *(const long *) b; return (x > y) - (x < y); }
 
 /* order-insensitive summary of the recorded event string */
@@ -98,7 +106,7 @@ static void handle(int argc, char **argv) {
         if (rc == CIF_OK && dest) { for (i = 0; dest[i]; i++) free(dest[i]); free(dest); }
         for (i = 0; i < n; i++) free(src[i]);
         free(src);
-    } else if (argc >= 4 && !strcmp(argv[1], "clone")) {
+    } else if (argc >= 4 && (!strcmp(argv[1], "clone") || !strcmp(argv[1], "vclone"))) {
         cif_value_tp *v, *w = NULL;
         pos = 2;
         v = mk(argv, argc, &pos);
@@ -106,6 +114,17 @@ static void handle(int argc, char **argv) {
         verif_arm(0, atol(argv[pos]));
         ARM(); rc = cif_value_clone(v, &w); DISARM();
         summary(rc);
+        if (rc == CIF_OK && !w) OUT(" !NOCLONE");
+        if (rc != CIF_OK && w) OUT(" !CLONESET");
+        if (rc == CIF_OK && w) {
+            /* the clone equals the source (dump through the public query API; walks both completely under ASan) */
+            char *a = NULL, *b = NULL; size_t sa = 0, sb = 0;
+            FILE *fa = open_memstream(&a, &sa), *fb = open_memstream(&b, &sb);
+            fdump_value(fa, w); fdump_value(fb, v);
+            fclose(fa); fclose(fb);
+            if (!a || !b || strcmp(a, b)) OUT(" !NEWVALUE");
+            free(a); free(b);
+        }
         /* "shares no storage … modifying either leaves the other intact": grow the clone and the original when they are lists */
         if (rc == CIF_OK && w && cif_value_kind(w) == CIF_LIST_KIND) {
             cif_value_tp *filler = NULL; int i;
@@ -211,7 +230,7 @@ static void handle(int argc, char **argv) {
         cif_value_free(w); cif_value_free(tbl); cif_packet_free(pkt); cif_value_free(hi); cif_value_free(val);
         for (i = 0; i < n; i++) free(keys[i]);
         free(keys); free(key);
-    } else if (argc >= 4 && !strcmp(argv[1], "deser")) {
+    } else if (argc >= 4 && (!strcmp(argv[1], "deser") || !strcmp(argv[1], "vdeser"))) {
         /* serialise a list value (un-armed), then deserialise the blob onto a fresh value object, as GET_VALUE_PROPS does */
         cif_value_tp *v, *dest = NULL;
         buffer_tp *buf = NULL;
@@ -272,6 +291,132 @@ static void handle(int argc, char **argv) {
         } else if (rc == CIF_OK) OUT(" !NOPACKET");
         for (i = 0; i < n; i++) free(names[i]);
         free(names);
+    } else if (argc == 4 && !strcmp(argv[1], "allloops")) {
+        /* cif_container_get_all_loops on a block holding one loop per character of argv[2]: 'c' = with a category, 'n' = without */
+        const char *fl = argv[2];
+        int n = (int) strlen(fl), i;
+        cif_tp *cif = NULL; cif_block_tp *blk = NULL; cif_loop_tp **loops = NULL;
+        UChar code[] = { 'b', 0 };
+        if (n < 1 || n > 40 || strspn(fl, "cn") != (size_t) n) { OUT("bad-op"); return; }
+        if (cif_create(&cif) != CIF_OK || cif_create_block(cif, code, &blk) != CIF_OK) { OUT("setup-failed"); goto aldone; }
+        for (i = 0; i < n; i++) {
+            char b[24]; UChar nm[24], cat[24], *names[2]; int j; cif_loop_tp *lp = NULL;
+            snprintf(b, sizeof b, "_l%d.x", i); for (j = 0; b[j]; j++) nm[j] = (UChar) b[j]; nm[j] = 0;
+            snprintf(b, sizeof b, "cat%d", i); for (j = 0; b[j]; j++) cat[j] = (UChar) b[j]; cat[j] = 0;
+            names[0] = nm; names[1] = NULL;
+            if (cif_container_create_loop(blk, fl[i] == 'c' ? cat : NULL, names, &lp) != CIF_OK) { OUT("setup-failed"); goto aldone; }
+            cif_loop_free(lp);
+        }
+        verif_arm(0, atol(argv[3]));
+        ARM(); rc = cif_container_get_all_loops(blk, &loops); DISARM();
+        summary(rc);
+        if (rc == CIF_OK) {
+            if (!loops) OUT(" !NOLOOPS");
+            else {
+                for (i = 0; loops[i]; i++) { UChar *c = NULL; if (cif_loop_get_category(loops[i], &c) != CIF_OK) OUT(" !LOOPUSE%d", i); free(c); cif_loop_free(loops[i]); }
+                if (i != n) OUT(" !LOOPCOUNT%d", i);
+                free(loops);
+            }
+        } else if (loops) OUT(" !LOOPSSET");
+        /* "the same call succeeds when repeated with memory available" */
+        if (rc != CIF_OK) { loops = NULL; if (cif_container_get_all_loops(blk, &loops) != CIF_OK || !loops) OUT(" !RETRY"); else { for (i = 0; loops[i]; i++) cif_loop_free(loops[i]); free(loops); } }
+      aldone:
+        if (blk) cif_container_free(blk);
+        if (cif) cif_destroy(cif);
+    } else if (argc == 4 && !strcmp(argv[1], "loophdr")) {
+        /* parse_loop() of parser.c, syntax-only (container == NULL), on the text " _a0 … _a<n-1> _a0": n distinct names and a
+           repetition of the first, which the error callback refuses — so parse_loop_header returns an error on every path
+           and parse_loop releases the name list.  The scanner's buffer holds the whole text (no request by the scanner). */
+        int n = atoi(argv[2]), i;
+        struct scanner_s scanner;
+        char text[2048]; size_t len = 0, j;
+        if (n < 1 || n > 100) { OUT("bad-op"); return; }
+        for (i = 0; i <= n; i++) len += (size_t) snprintf(text + len, sizeof(text) - len, " _a%d", i == n ? 0 : i);
+        len += (size_t) snprintf(text + len, sizeof(text) - len, "\n");
+        memset(&scanner, 0, sizeof(scanner));
+        scanner.read_func = ld_read_none;
+        scanner.at_eof = CIF_TRUE;
+        scanner.cif_version = 2;
+        scanner.max_frame_depth = 1;
+        scanner.handler = &ld_no_handler;
+        scanner.error_callback = ld_refuse;
+        scanner.buffer_size = len + BUF_MIN_FILL + 1;
+        scanner.buffer = (UChar *) malloc(scanner.buffer_size * sizeof(UChar));
+        for (j = 0; j < len; j++) scanner.buffer[j] = (UChar) text[j];
+        scanner.buffer_limit = len;
+        INIT_V2_SCANNER(&scanner, NULL, NULL);
+        scanner.next_char = scanner.buffer;
+        scanner.text_start = scanner.buffer;
+        scanner.tvalue_start = scanner.buffer;
+        scanner.tvalue_length = 0;
+        verif_arm(0, atol(argv[3]));
+        ARM(); rc = parse_loop(&scanner, NULL); DISARM();
+        summary(rc);
+        free(scanner.buffer);
+    } else if (argc >= 5 && (!strcmp(argv[1], "getpackets") || !strcmp(argv[1], "nextpacket"))) {
+        /* ladder getpackets <n> <name-hex>*n <k>                         cif_loop_get_packets
+           ladder nextpacket <keep> <n> (<name-hex> <vshape…>)*n <k>      cif_pktitr_next_packet (packet == NULL / *packet == NULL)
+           a stored loop with the n item names and ONE packet holding the given values (getpackets: unknown values); SQLite's own
+           allocations are not wrapped in this executor, so only the library's requests are events */
+        int isnext = argv[1][0] == 'n', keep = 0, n, i, bad = 0;
+        cif_tp *cif = NULL; cif_block_tp *blk = NULL; cif_loop_tp *loop = NULL; cif_packet_tp *pkt = NULL, *got = NULL;
+        cif_pktitr_tp *it = NULL;
+        UChar code[] = { 'b', 0 }, **names; cif_value_tp **vals;
+        pos = 2;
+        if (isnext) keep = atoi(argv[pos++]);
+        n = atoi(argv[pos++]);
+        if (n < 1 || n > 60) { OUT("bad-op"); return; }
+        names = (UChar **) calloc(n + 1, sizeof(UChar *)); vals = (cif_value_tp **) calloc(n + 1, sizeof(cif_value_tp *));
+        for (i = 0; i < n && !bad; i++) {
+            if (pos >= argc - 1 || !unhex(argv[pos++], &names[i], NULL) || !names[i]) bad = 1;
+            else if (isnext && !(vals[i] = mk(argv, argc, &pos))) bad = 1;
+        }
+        if (bad || pos != argc - 1) { OUT("bad-op"); goto itdone; }
+        if (cif_create(&cif) != CIF_OK || cif_create_block(cif, code, &blk) != CIF_OK
+                || cif_container_create_loop(blk, NULL, names, &loop) != CIF_OK || cif_packet_create(&pkt, names) != CIF_OK) { OUT("setup-failed"); goto itdone; }
+        for (i = 0; i < n; i++) if (vals[i] && cif_packet_set_item(pkt, names[i], vals[i]) != CIF_OK) { OUT("setup-failed"); goto itdone; }
+        if (cif_loop_add_packet(loop, pkt) != CIF_OK) { OUT("setup-failed"); goto itdone; }
+        if (!isnext) {
+            verif_arm(0, atol(argv[pos]));
+            ARM(); rc = cif_loop_get_packets(loop, &it); DISARM();
+            summary(rc);
+            if (rc == CIF_OK && !it) OUT(" !NOITER");
+            if (rc != CIF_OK && it) { OUT(" !ITERSET"); it = NULL; }
+            /* "the same call succeeds when repeated with memory available" */
+            if (rc != CIF_OK && cif_loop_get_packets(loop, &it) != CIF_OK) { OUT(" !RETRY"); it = NULL; }
+            /* the iterator is usable: read the packet through it, then abort */
+            if (it) { int r2 = cif_pktitr_next_packet(it, &got); if (r2 != CIF_OK || !got) OUT(" !ITERUSE%d", r2); }
+        } else {
+            if (cif_loop_get_packets(loop, &it) != CIF_OK || !it) { OUT("setup-failed"); it = NULL; goto itdone; }
+            verif_arm(0, atol(argv[pos]));
+            ARM(); rc = cif_pktitr_next_packet(it, keep ? &got : NULL); DISARM();
+            summary(rc);
+            if (rc == CIF_OK && keep && !got) OUT(" !NOPACKET");
+            if (rc != CIF_OK && got) { OUT(" !PACKETSET"); got = NULL; }
+            if (rc == CIF_OK && got) {
+                /* the packet read back holds exactly the stored values */
+                for (i = 0; i < n; i++) {
+                    cif_value_tp *x = NULL;
+                    char *a = NULL, *b = NULL; size_t sa = 0, sb = 0;
+                    FILE *fa, *fb;
+                    if (cif_packet_get_item(got, names[i], &x) != CIF_OK || !x) { OUT(" !PITEM%d", i); continue; }
+                    fa = open_memstream(&a, &sa); fb = open_memstream(&b, &sb);
+                    fdump_value(fa, x); fdump_value(fb, vals[i]);
+                    fclose(fa); fclose(fb);
+                    if (!a || !b || strcmp(a, b)) OUT(" !PVALUE%d", i);
+                    free(a); free(b);
+                }
+            }
+        }
+      itdone:
+        cif_packet_free(got);
+        if (it) cif_pktitr_abort(it);
+        cif_packet_free(pkt);
+        if (loop) cif_loop_free(loop);
+        if (blk) cif_container_free(blk);
+        if (cif) cif_destroy(cif);
+        for (i = 0; i < n; i++) { free(names[i]); cif_value_free(vals[i]); }
+        free(names); free(vals);
     } else if (argc >= 5 && !strcmp(argv[1], "set")) {
         /* the target is element 1 of [ ? <tshape> ? ]; replacing it releases pre-existing blocks only (counted as pfrees) */
         cif_value_tp *lst = NULL, *e, *filler = NULL, *old, *probe = NULL;
